@@ -96,9 +96,9 @@ Proof.
     intros t0 th0 G0. cbn [s_threads set_threads] in G0. rewrite Ht in G0. gs G0; [|apply (K t0 th0 G0)].
     injection G0 as <-. cbn [t_op t_pc]. apply (thread_step_pcx _ _ _ _ _ _ _ TS (K t th G)).
   - unfold seq_step. destruct (s_seq s); [destruct (s_slots s (s_committed s + 1)) as [ev|]; [destruct (e_valid ev); [|destruct (e_unc ev)]|]|..]; exact K.
-  - unfold retry_step. destruct (s_retry s) as [|node|node val|node val rev|node rev eo|node st]; try exact K.
+  - unfold retry_step. destruct (s_retry s) as [|node|node val|node val rev|node rev [er|]|node st]; try exact K; try (destruct (is_cas er); exact K).
     + destruct (s_queue s) as [|[node t] rest]; [exact K|]. destruct (s_now s - t <? retry_interval); exact K.
-    + destruct e; try exact K. destruct (latest _) as [[modrev val]|]; [destruct (is_empty val || negb (modrev =? e_rev node))|]; exact K.
+    + destruct e; try exact K. destruct (latest _) as [[modrev val]|]; [destruct (negb (modrev =? e_rev node))|]; exact K.
     + destruct (commit _ _ e). exact K.
   - exact K.
 Qed.
@@ -120,9 +120,9 @@ Proof.
   - apply ack_p_mono. apply (A t0 th0). unfold step, step_gen, seq_step in G0.
     destruct (s_seq s); [destruct (s_slots s (s_committed s + 1)) as [ev|]; [destruct (e_valid ev); [|destruct (e_unc ev)]|]|..]; exact G0.
   - apply ack_p_mono. apply (A t0 th0). unfold step, step_gen, retry_step in G0.
-    destruct (s_retry s) as [|node|node val|node val rev|node rev eo|node st]; try exact G0.
+    destruct (s_retry s) as [|node|node val|node val rev|node rev [er|]|node st]; try exact G0; try (destruct (is_cas er); exact G0).
     + destruct (s_queue s) as [|[node t] rest]; [exact G0|]. destruct (s_now s - t <? retry_interval); exact G0.
-    + destruct e; try exact G0. destruct (latest _) as [[modrev val]|]; [destruct (is_empty val || negb (modrev =? e_rev node))|]; exact G0.
+    + destruct e; try exact G0. destruct (latest _) as [[modrev val]|]; [destruct (negb (modrev =? e_rev node))|]; exact G0.
     + destruct (commit _ _ e). exact G0.
   - apply (A t0 th0 G0).
 Qed.
